@@ -220,4 +220,34 @@ Proof.
     exists w. split; [exact Hw|apply Hw2].
 Qed.
 
+(* the Unicode serialization: the ASCII one for IP hosts; for a domain whose ToUnicode form is plain ASCII and is
+   read back by Host::parse as the same host, the same round trip *)
+Theorem rt_parsed_unicode tu input u c s h p c' : hosts_rt ->
+  url_parse dbg hp ho hd input = POk u -> url_origin dbg hp ho hd c u = OOk (Tuple s h p) c' ->
+  nlen (ascii_serialization hd (Tuple s h p)) < U32_MAX_P ->
+  match h with HDomain d => plain_text (tu d) /\ hp (tu d) = Ok h | _ => True end ->
+  exists w, url_parse dbg hp ho hd (unicode_serialization hd tu (Tuple s h p)) = POk w
+            /\ url_origin dbg hp ho hd c' w = OOk (Tuple s h p) c'.
+Proof.
+  intros HR Hu Ho HB Htu.
+  destruct (tuple_origin_facts _ c u s h p c' (url_parse_good input u Hu) Ho) as (H5 & Hp & (t & Hhp) & _).
+  destruct (HR t h Hhp) as (Htxt & Hfmt & Hrt).
+  destruct h as [d|a|pc].
+  - destruct Htu as [[Hne Hpl] Hback]. cbn [unicode_serialization host_fmt ascii_serialization] in *.
+    destruct (tu d) as [|x r] eqn:Et; [congruence|].
+    assert (Hx : plainc x = true) by (cbn [forallb] in Hpl; apply andb_true_iff in Hpl; tauto).
+    apply plainc_facts in Hx.
+    destruct (rt_text_gen dbg hp ho hd s x r (HDomain d) p H5 Hp (scannable_plain _ Hpl) ltac:(tauto) ltac:(tauto) Hback)
+      as (w & Hw & Hw2); cbn [host_fmt]; try assumption.
+    + destruct Htxt as [[Hn _]|(body & -> & _)]; [exact Hn|discriminate].
+    + destruct Htxt as [[Hn Hp0]|(body & -> & _)]; [|apply ends_with_93].
+      destruct d as [|y d']; [congruence|]. apply (ends_with_not 47 [] (y :: d')); [discriminate|].
+      now apply plain_no_slash.
+    + exists w. split; [exact Hw|apply Hw2].
+  - rewrite unicode_is_ascii by (intros d; discriminate).
+    exact (rt_parsed input u c (Tuple s (HIpv4 a) p) c' HR Hu Ho eq_refl HB).
+  - rewrite unicode_is_ascii by (intros d; discriminate).
+    exact (rt_parsed input u c (Tuple s (HIpv6 pc) p) c' HR Hu Ho eq_refl HB).
+Qed.
+
 End Parsed.
